@@ -62,6 +62,11 @@ def qual(n):
     return (n.get("type") or {}).get("qualType", "")
 
 
+def desugared(n):
+    t = n.get("type") or {}
+    return t.get("desugaredQualType") or t.get("qualType", "")
+
+
 class SinkReader:
     def __init__(self, cls, stream):
         self.cls = cls
@@ -87,7 +92,7 @@ class SinkReader:
 
     # -- which mutex object does an expression denote?
     def is_plain_mutex(self, d):
-        return qual(d) == "std::mutex" and not d.get("tls")
+        return desugared(d) == "std::mutex" and not d.get("tls")
 
     def mutex_of(self, e):
         e = strip(e)
@@ -200,7 +205,7 @@ class SinkReader:
                 if v.get("storageClass") == "static" and self.is_plain_mutex(v):
                     self.local_static_mutexes[v.get("id")] = v.get("name")
                     return []
-                if GUARD_TYPE.match(qual(v)) and not v.get("storageClass") and not v.get("tls"):
+                if GUARD_TYPE.match(desugared(v)) and not v.get("storageClass") and not v.get("tls"):
                     init = [strip(c) for c in inner(v)]
                     if len(init) == 1 and init[0].get("kind") == "CXXConstructExpr":
                         args = [a for a in inner(init[0]) if a.get("kind") != "CXXDefaultArgExpr"]
